@@ -4,7 +4,7 @@
     reference files); proved: the exact guard, and everything else.
     Only statements; proofs are [exact <lemma>] or computations. *)
 Require Import AT.Model.Base AT.Model.Rose AT.Model.Iter AT.Model.Graph AT.Spec.IterSpec AT.Spec.GraphSpec.
-Require AT.Proofs.GraphProofs AT.Proofs.IterPre AT.Generated.Extracted.
+Require AT.Proofs.GraphProofs AT.Proofs.IterPre AT.Generated.Extracted AT.Proofs.Digits.
 Import AT.Proofs.GraphProofs.
 
 (** one node statement per admitted node that passes filter_, in pre-order
@@ -86,6 +86,20 @@ Proof.
   intros uses a b v. apply tbl_injective. apply tbl_after_ok. split; [reflexivity|constructor].
 Qed.
 Print Assumptions C12_unique_ids_injective.
+
+(** the printed identifier "0x" + hex digits determines the counter value, so
+    two declared nodes never share a printed default identifier *)
+Theorem C12_hex_injective : forall a b, hex a = hex b -> a = b.
+Proof. exact AT.Proofs.Digits.hex_injective. Qed.
+Print Assumptions C12_hex_injective.
+Theorem C12_unique_names_distinct : forall uses m n v w,
+  tbl_find (tbl_after [] uses) m = Some v -> tbl_find (tbl_after [] uses) n = Some w ->
+  tbl_name hex (tbl_after [] uses) m = tbl_name hex (tbl_after [] uses) n -> m = n.
+Proof.
+  intros uses m n v w. apply (AT.Proofs.Digits.names_distinct hex AT.Proofs.Digits.hex_injective).
+  intros a b x. apply C12_unique_ids_injective.
+Qed.
+Print Assumptions C12_unique_names_distinct.
 
 (** results of the attribute / edge-type functions, the options, indent and
     graph/name settings appear verbatim at their places (by the shape of the
